@@ -421,6 +421,10 @@ def show(v, top=True) -> str:
         return "*" + show(v[1])
     if t == "when":
         return f"({show(v[2])} when {show(v[1])})"
+    if t == "kv":
+        return f"{show(v[1])}: {show(v[2])}"
+    if t == "kadd":
+        return f"{show(v[1])} +: {show(v[2])}"
     if t == "dict":
         return "{" + ", ".join(f"{show(k)}: {show(x)}" for k, x in v[1]) + "}"
     if t == "comp":
@@ -495,6 +499,8 @@ class AV:
         self.call_log: list = []  # (caller Func, call node, value) for every opaque call met (in order)
         self._budget = 200000
         self._imp: dict = {}
+        self._nt = None
+        self.nt_of: dict = {}
         self.attr_stores: list = []  # (function, value of the object, attribute, value stored, node)
 
     @staticmethod
@@ -625,22 +631,38 @@ class AV:
                 if r is not None:
                     return r
                 continue
-            self._stmt(st, fr)
+            lifted = self._stmt(st, fr)
+            if lifted is not None:
+                # the statement raises under a condition (inside an expanded helper): a partial exit
+                rr = self._run(rest, fr, cont)
+                if any(rr is x for x in (_FALL, _CONT)):
+                    return lifted
+                if any(rr is x for x in (_BREAK, _MIXED)):
+                    return unk("conditional raise followed by a loop exit")
+                if rr[0] == "pret":
+                    return ("pret", mk_or(lifted[1], rr[1]), lifted[2]) if rr[2] == lifted[2] else mk_if(lifted[1], lifted[2], unk("partial return after a conditional raise"))
+                return mk_if(lifted[1], lifted[2], rr)
         if cont:
             return self._run(list(cont[0]), fr, cont[1:])
         return _FALL
 
     def _stmt(self, st, fr: Frame):
+        """Executes a simple statement.  Returns ('pret', cond, ('raise', X)) when an expanded call raises under cond."""
         if isinstance(st, ast.Expr):
             if isinstance(st.value, ast.Constant):
                 return
-            self._effect(st.value, fr)
+            v = self._effect(st.value, fr)
+            if isinstance(v, tuple) and has(v, "raise"):
+                return _lift_raise(v)[0]
             return
         if isinstance(st, ast.Assign):
             v = self._ev(st.value, fr)
+            lifted = None
+            if has(v, "raise") and v[0] == "if":
+                lifted, v = _lift_raise(v)
             for t in st.targets:
                 self._bind(t, v, fr)
-            return
+            return lifted
         if isinstance(st, ast.AnnAssign):
             if st.value is not None:
                 self._bind(st.target, self._ev(st.value, fr), fr)
@@ -726,6 +748,13 @@ class AV:
         it, idx = self._iter(it, d)
         inner_env = dict(fr.env)
         assigned = _assigned_in(st.body)
+        for n_ in ast.walk(ast.Module(body=list(st.body), type_ignores=[])):
+            if isinstance(n_, ast.Call) and isinstance(n_.func, ast.Name):
+                tgt = fr.env.get(n_.func.id)
+                if isinstance(tgt, tuple) and tgt and tgt[0] == "fn" and not isinstance(tgt[1].node, ast.Lambda):
+                    for m_ in _mutated_names(tgt[1].node.body):
+                        if m_ in fr.env and m_ not in assigned:
+                            assigned.append(m_)
         pre = {k: fr.env.get(k) for k in assigned}
         for k in assigned:
             if k in fr.env:
@@ -817,7 +846,8 @@ class AV:
             # list accumulation: new = [*acc, items...]
             if new[0] == "list" and new[1] and new[1][0] == ("spread", acc) and not has(("x",) + new[1][1:], "acc"):
                 comp = mk_comp(d, it, new[1][1:])
-                fr.env[k] = mk_list(_spread_items(old) + (("spread", comp),))
+                base_ = _as_events(old) if old[0] in ("dict", "call") and _as_events(old) is not None else old
+                fr.env[k] = mk_list(_spread_items(base_) + (("spread", comp),))
                 continue
             # string accumulation: new = acc + parts
             if new[0] == "s" and new[1] and new[1][0] == ("h", acc) and not has(("x",) + new[1][1:], "acc"):
@@ -892,14 +922,20 @@ class AV:
             return
         if isinstance(target, ast.Subscript):
             base = target.value
+            if isinstance(base, ast.Attribute) and dotted(base) in fr.env:
+                base = ast.Name(dotted(base), ast.Load())
             if isinstance(base, ast.Name) and base.id in fr.env:
                 cur = fr.env[base.id]
                 key = self._ev(target.slice, fr)
-                if cur[0] == "dict":
+                if cur[0] == "dict" and key[0] == "c" and all(k[0] == "c" for k, _ in cur[1]):
                     items = [(k, x) for k, x in cur[1] if k != key] + [(key, v)]
                     fr.env[base.id] = ("dict", tuple(items))
                 else:
-                    fr.env[base.id] = ("call", "setitem", (cur, key, v), ())
+                    ev_ = _as_events(cur)
+                    if ev_ is not None:
+                        fr.env[base.id] = mk_list(_items(ev_) + (("kv", key, v),))
+                    else:
+                        fr.env[base.id] = ("call", "setitem", (cur, key, v), ())
             return
         if isinstance(target, ast.Attribute):
             self.attr_stores.append((fr.func, self._ev(target.value, fr), target.attr, v, target))
@@ -936,6 +972,15 @@ class AV:
                     return
             if m in ("append", "add", "extend", "update", "insert", "pop", "remove", "clear", "sort", "reverse", "setdefault", "discard") :
                 fr.env[name] = unk(f"{name}.{m}(...) not modelled")
+                return
+        if isinstance(node, ast.Call) and isinstance(node.func, ast.Attribute) and isinstance(node.func.value, ast.Subscript) and isinstance(node.func.value.value, ast.Name) and node.func.value.value.id in fr.env and node.func.attr in ("add", "append", "extend", "update") and len(node.args) == 1:
+            # D[k].add(v): an event on the mapping D
+            name = node.func.value.value.id
+            cur = _as_events(fr.env[name])
+            if cur is not None:
+                key = self._ev(node.func.value.slice, fr)
+                arg = self._ev(node.args[0], fr)
+                fr.env[name] = mk_list(_items(cur) + (("kadd", key, arg),))
                 return
         v = self._ev(node, fr)
         return v
@@ -1023,7 +1068,7 @@ class AV:
                 head = d_.split(".")[0]
                 if head in fr.env:
                     base = self._ev(n.value, fr)
-                    return _attr(base, n.attr)
+                    return self._attr_nt(base, n.attr)
                 if head in self._module_env(fr.rel):
                     base = self._ev(n.value, fr)
                     return _attr(base, n.attr)
@@ -1031,7 +1076,7 @@ class AV:
                 if origin and not origin.startswith("gotranx"):
                     d_ = origin + d_[len(head):]
                 return ("sym", canon_sym(d_))
-            return _attr(self._ev(n.value, fr), n.attr)
+            return self._attr_nt(self._ev(n.value, fr), n.attr)
         if isinstance(n, ast.Subscript):
             base = self._ev(n.value, fr)
             if isinstance(n.slice, ast.Slice):
@@ -1060,6 +1105,12 @@ class AV:
             self._bind(n.target, v, fr)
             return v
         return unk(type(n).__name__)
+
+    def _attr_nt(self, base, name):
+        cls = self.nt_of.get(base)
+        if cls is not None and name in self._namedtuples().get(cls, []):
+            return mk_sub(base, C(self._namedtuples()[cls].index(name)))
+        return _attr(base, name)
 
     def _comp(self, n, elt, fr: Frame):
         if len(n.generators) != 1:
@@ -1091,6 +1142,14 @@ class AV:
         if origin and not origin.startswith("gotranx"):
             return ("sym", canon_sym(origin))
         return ("sym", name)
+
+    def _namedtuples(self) -> dict:
+        if self._nt is None:
+            self._nt = {}
+            for (rel, qn), c in self.sm.classes.items():
+                if any(b.split(".")[-1] == "NamedTuple" for b in c.bases):
+                    self._nt[c.name] = [st.target.id for st in c.node.body if isinstance(st, ast.AnnAssign) and isinstance(st.target, ast.Name)]
+        return self._nt
 
     def _imports(self, rel: str) -> dict:
         if rel not in self._imp:
@@ -1199,6 +1258,11 @@ class AV:
             v = self._apply_func(callee, args, kwargs, fr, self._ev(fn.value, fr) if bound_self else None)
             if v is not None:
                 return v
+        ret_nt = None
+        if callee is not None and callee.node.returns is not None:
+            rn = norm(callee.node.returns).split(".")[-1].strip("'\"")
+            if rn in self._namedtuples():
+                ret_nt = rn
         if isinstance(fn, ast.Attribute):
             if d_ is not None and d_.split(".")[0] not in fr.env and d_.split(".")[0] not in self._module_env(fr.rel):
                 origin = self._imports(fr.rel).get(d_.split(".")[0])
@@ -1215,6 +1279,8 @@ class AV:
             if origin and not origin.startswith("gotranx"):
                 nm = canon_sym(origin)
             v = ("call", nm, args, kwargs_t)
+        if ret_nt is not None:
+            self.nt_of[v] = ret_nt
         self.call_log.append((fr.func, n, v))
         return v
 
@@ -1452,6 +1518,13 @@ class AV:
         a = node.args
         params = [x.arg for x in a.posonlyargs + a.args]
         env = dict(clo.env)
+        same_scope = clo.func is fr.func
+        if same_scope:
+            for k_ in list(env):
+                if k_ in fr.env:
+                    env[k_] = fr.env[k_]
+            for k_, v_ in fr.env.items():
+                env.setdefault(k_, v_)
         if len(args) > len(params):
             return unk("closure arity")
         for p, v in zip(params, args):
@@ -1471,6 +1544,10 @@ class AV:
         if isinstance(node, ast.Lambda):
             return self._ev(node.body, sub)
         r = self._body(node.body, sub)
+        if same_scope:
+            for m_ in _mutated_names(node.body):
+                if m_ in fr.env and m_ not in params and m_ in sub.env and sub.env[m_] != fr.env[m_]:
+                    fr.env[m_] = sub.env[m_]
         return self._finish(r, sub)
 
     def _finish(self, r, sub: Frame):
@@ -1517,6 +1594,30 @@ _FALL = ("fall",)
 _BREAK = ("break",)
 _CONT = ("continue",)
 _MIXED = ("mixed-exit",)
+
+
+def _lift_raise(v):
+    """v = (raise X if c else w)  ->  (('pret', c, ('raise', X)), w); nested conditionals are followed along the
+    non-raising side only."""
+    if v[0] == "raise":
+        return ("pret", C(True), v), NONE
+    if v[0] == "if":
+        if v[2][0] == "raise":
+            inner, rest = _lift_raise(v[3]) if has(v[3], "raise") and v[3][0] == "if" else (None, v[3])
+            if inner is None:
+                return ("pret", v[1], v[2]), rest
+            if inner[2] == v[2]:
+                return ("pret", mk_or(v[1], inner[1]), v[2]), rest
+            return ("pret", v[1], v[2]), v[3]
+        if v[3][0] == "raise":
+            inner, rest = _lift_raise(v[2]) if has(v[2], "raise") and v[2][0] == "if" else (None, v[2])
+            c = mk_not(v[1])
+            if inner is None:
+                return ("pret", c, v[3]), rest
+            if inner[2] == v[3]:
+                return ("pret", mk_or(c, inner[1]), v[3]), rest
+            return ("pret", c, v[3]), v[2]
+    return None, v
 
 
 def _has_exit(st) -> bool:
@@ -1586,6 +1687,17 @@ def _is_str(v) -> bool:
     return (v[0] == "c" and isinstance(v[1], str)) or v[0] in ("s", "join") or (v[0] == "if" and _is_str(v[2]) and _is_str(v[3])) or (v[0] == "call" and v[1] in ("indent", "dedent"))
 
 
+def _as_events(v):
+    """A mapping under construction as the list of its store events ('kv', key, value) / ('kadd', key, value)."""
+    if v[0] == "dict":
+        return ("list", tuple(("kv", k, x) for k, x in v[1]))
+    if v[0] in ("list", "acc"):
+        return v
+    if v[0] == "call" and v[1].split(".")[-1] in ("defaultdict", "dict", "OrderedDict") and not v[3] and all(a[0] in ("sym",) for a in v[2]):
+        return ("list", ())
+    return None
+
+
 def _is_seq(v) -> bool:
     return v[0] in ("list", "acc", "comp")
 
@@ -1624,6 +1736,24 @@ def _assigned(st) -> list[str]:
             out.append(n.func.value.id)
         elif isinstance(n, ast.Subscript) and isinstance(n.ctx, ast.Store) and isinstance(n.value, ast.Name):
             out.append(n.value.id)
+        elif isinstance(n, ast.Call) and isinstance(n.func, ast.Attribute) and isinstance(n.func.value, ast.Subscript) and isinstance(n.func.value.value, ast.Name) and n.func.attr in ("append", "extend", "add", "update"):
+            out.append(n.func.value.value.id)
+    return out
+
+
+def _mutated_names(body) -> list[str]:
+    """Names mutated in place (method calls, subscript stores) - not plain re-bindings."""
+    out = []
+    for st in body:
+        for n in ast.walk(st):
+            if isinstance(n, ast.Call) and isinstance(n.func, ast.Attribute) and n.func.attr in ("append", "extend", "add", "update", "insert", "pop", "remove", "clear", "sort", "reverse", "setdefault", "discard"):
+                b = n.func.value
+                if isinstance(b, ast.Subscript):
+                    b = b.value
+                if isinstance(b, ast.Name):
+                    out.append(b.id)
+            elif isinstance(n, ast.Subscript) and isinstance(n.ctx, ast.Store) and isinstance(n.value, ast.Name):
+                out.append(n.value.id)
     return out
 
 
